@@ -128,7 +128,7 @@ PROPERTIES = {
                        "exactly the single-definition models. bounded stand-in: traversal (_occurrences), cycle check, glue, both "
                        "directions on adversarial id/bounds palettes. ADDED: contracts.c10shape -- the real errors() (with _occurrences, _dependencies, flatten, graphlib) on tree shapes with symbolic bounds of a repeated leaf id / symbolic thresholds and signs of a repeated sub-proposition id (explicit and generated): accepted iff one definition; cycle, repeated child, differing children or own bounds rejected; tree and shared sub-proposition accepted.",
     },
-    "C11": {"harness_modules": ["contracts.c11"], "rt": ["rt.arrays:c11_reduce"], "level": "other",
+    "C11": {"harness_modules": ["contracts.c11"], "rt": ["rt.arrays:poly_same_object", "rt.arrays:c11_reduce"], "level": "other",
             "assumptions": S_ALL + ["S2 (exact division/floor, see C12)", "variable bounds within the 16-bit default range"],
             "explanation": "deductive, bounded in shape and unbounded in values (symbolic coefficients, right-hand sides, bounds, forced "
                            "values): reducable_rows sound and exact; reducable_columns_approx: a reported value is taken by every "
@@ -139,7 +139,7 @@ PROPERTIES = {
                            "thorough tier): forced columns are forced in every solution and flagged rows hold wherever the forced "
                            "columns agree (the while loop is enumerated path by path, bounded by the shape). bounded stand-in: "
                            "matrices up to 3x3 against brute-force solution sets, incl. the projection property end to end."},
-    "C12": {"harness_modules": ["contracts.c12"], "rt": ["rt.arrays:c12_tighten"], "level": "other",
+    "C12": {"harness_modules": ["contracts.c12"], "rt": ["rt.arrays:poly_same_object", "rt.arrays:c12_tighten"], "level": "other",
             "assumptions": S_ALL + ["S2: `/` is exact real division and floor the real floor (float rounding of numpy is NOT modelled; "
                                     "the stand-in sweeps coefficient magnitudes up to 130 with exact quotients for that)",
                                     "variable bounds lie within the library's default 16-bit range (precondition of the property)"],
@@ -206,7 +206,7 @@ PROPERTIES = {
                            "(frame). bounded stand-in: equality of default priorities, polyhedra and solutions with direct "
                            "construction, sequences of additions, additions after the original was queried."},
     "C19": {"harness_modules": ["contracts.c19"], "harness_filter": only("ge_polyhedron.points"),
-            "rt": ["rt.arrays:c19_points"], "level": "other", "assumptions": S_ALL,
+            "rt": ["rt.arrays:poly_same_object", "rt.arrays:c19_points"], "level": "other", "assumptions": S_ALL,
             "explanation": "deductive, bounded in shape (polyhedra 1x1, 2x2, 3x2; points of shape (c,), (1,c), (2,c), (1,2,c), (2,1,c)) and "
                            "unbounded in values: ineqs_satisfied / separable / ineq_separate_points (real source on the symbolic "
                            "ndarray layer) equal the row-by-row definition, output shapes follow the input shape. bounded "
